@@ -66,6 +66,9 @@ Clauses(c) ==
      \* containment in setdefault / symmetric difference) are alternative lawful outcomes here
   IN (IF o1 = {} \/ ((kf14 \/ kf15) /\ o2 = {}) THEN {} ELSE o1)
      \cup (IF PostInv(c) THEN {} ELSE {"C04-invariant"})
+     \* Transfer (ContainerTraits.tla): the object under test received its value by assignment, constructor keyword, deep
+     \* copy, clone_traits, copy_traits, pickling or from another object's attribute of the same trait - same value
+     \cup (IF (IF c.kind = "set" THEN SetOf(c.viapre) = SetOf(c.pre) ELSE Same(c, c.viapre, c.pre)) THEN {} ELSE {"transfer-changed-value"})
      \cup (IF failed /\ (c.nitems # 0 \/ c.nchange # 0) THEN {"notified-on-failure"} ELSE {})
      \cup (IF failed /\ ~Same(c, c.post, IF c.kind = "set" THEN SetOf(c.pre) ELSE c.pre) THEN {"changed-on-failure"} ELSE {})
      \cup (IF ~failed /\ c.op = "assign" /\ c.nitems # 0 THEN {"items-event-on-assign"} ELSE {})
